@@ -322,6 +322,10 @@ func (gr gradient) paint(dst backend.Canvas, node *svgNode, opacity Fl, dims dra
 	if gr.isUnitsUserSpace {
 		width, height = dims.innerWidth, dims.innerHeight
 	}
+	if width == 0 || height == 0 {
+		// the gradient can't be mapped onto an empty box: it is ignored
+		return false
+	}
 
 	// resolve positions values
 	positions := make([]Fl, len(gr.positions))
